@@ -58,3 +58,25 @@ Proof. intros Hf. destruct fuel as [|f]; [lia|]. cbn [finalize]. unfold chars.
 (** * add_newline_to_expansion *)
 Lemma add_newline_spec e : add_newline e = if starts_block e then Ch 10 :: e else e.
 Proof. reflexivity. Qed.
+
+(** * Selection (check_template_need_expand) as one formula *)
+Definition opt_mem (n : str) (o : option (list str)) : bool :=
+  match o with Some l => in_names n l | None => false end.
+
+Lemma need_expand_spec lib sel name :
+  need_expand lib sel name =
+  match find_tpl lib name with
+  | None => false
+  | Some t => negb (opt_mem name (not_expand_names sel)) && (opt_mem name (expand_names sel) || t_pre t)
+  end.
+Proof. unfold need_expand. destruct (find_tpl lib name) as [t|]; [|reflexivity].
+  destruct (expand_names sel), (not_expand_names sel); cbn [opt_mem negb andb orb]; reflexivity. Qed.
+
+(* a template that is not stored is never selected; an excluded one neither *)
+Lemma need_expand_missing lib sel name : find_tpl lib name = None -> need_expand lib sel name = false.
+Proof. intros H. rewrite need_expand_spec, H. reflexivity. Qed.
+
+Lemma need_expand_excluded lib sel name l :
+  not_expand_names sel = Some l -> in_names name l = true -> need_expand lib sel name = false.
+Proof. intros H1 H2. rewrite need_expand_spec. destruct (find_tpl lib name); [|reflexivity].
+  rewrite H1. cbn [opt_mem]. rewrite H2. reflexivity. Qed.
